@@ -56,14 +56,90 @@ def letter_cut(repo):
     # form B: text.rstrip(<letters>)
     for g_, n in scope_nodes(repo, f_poi):
         if isinstance(n, ast.Call) and isinstance(n.func, ast.Attribute) and n.func.attr == 'rstrip' and len(n.args) == 1 and norm(n.func.value) == f_poi.params()[0]:
+            env_ = {}
+            if isinstance(n.args[0], ast.Name):
+                r_ = repo.lookup(g_.module, n.args[0].id)        # `from string import ascii_letters`
+                if r_ and r_[0] == 'ext' and str(r_[1]) in STR:
+                    env_[n.args[0].id] = STR[str(r_[1])]
             try:
-                letters = fold(n.args[0], {}, STR)
+                letters = fold(n.args[0], env_, STR)
             except Unfoldable as ex_:
                 raise AnalysisError('C14.1: cannot fold the letter set of %s: %s' % (norm(n), ex_))
             if not isinstance(letters, str):
                 raise AnalysisError('C14.1: rstrip argument is not a string constant')
             return {'accepted': {ord(c) for c in letters if ord(c) < 0x250} | {ord(c) for c in letters}, 'maximal': True, 'form': 'rstrip', 'site': g_.loc(n),
                     'why': 'str.rstrip removes the maximal run of trailing characters of its set', 'rstrip': norm(n)}
+    # form C: a regular expression with two groups - the id and the trailing letters
+    for g_, n in scope_nodes(repo, f_poi):
+        if isinstance(n, ast.Call) and isinstance(n.func, ast.Attribute) and n.func.attr in ('match', 'fullmatch') and n.args and norm(n.args[-1]) == f_poi.params()[0]:
+            pat = None
+            if norm(n.func.value) == 're' and len(n.args) == 2 and isinstance(n.args[0], ast.Constant):
+                pat = n.args[0].value
+            elif isinstance(n.func.value, ast.Name) and len(n.args) == 1:
+                r_ = repo.lookup(g_.module, n.func.value.id)
+                v_ = r_[1] if r_ and r_[0] == 'var' else None
+                if isinstance(v_, ast.Call) and norm(v_.func) == 're.compile' and len(v_.args) == 1 and not v_.keywords and isinstance(v_.args[0], ast.Constant):
+                    pat = v_.args[0].value
+            if not isinstance(pat, str):
+                continue
+            import re._parser as _rp
+            import re._constants as _rc
+            try:
+                tree = list(_rp.parse(pat))
+            except Exception as ex_:
+                raise AnalysisError('C14.1: cannot parse the label pattern %r: %s' % (pat, ex_))
+            ops = [t for t in tree if t[0] is not _rc.AT or t[1] not in (_rc.AT_BEGINNING, _rc.AT_BEGINNING_STRING)]
+            end_anchor = bool(ops) and ops[-1][0] is _rc.AT and ops[-1][1] in (_rc.AT_END, _rc.AT_END_STRING)
+            if end_anchor:
+                ops = ops[:-1]
+            if len(ops) != 2 or any(o[0] is not _rc.SUBPATTERN for o in ops):
+                raise AnalysisError('C14.1: the label pattern %r is not (id)(letters)' % pat)
+            g2 = list(ops[1][1][3])
+            if len(g2) != 1 or g2[0][0] not in (_rc.MAX_REPEAT,) or g2[0][1][1] is not _rc.MAXREPEAT or len(list(g2[0][1][2])) != 1 or list(g2[0][1][2])[0][0] is not _rc.IN:
+                raise AnalysisError('C14.1: the letters group of %r is not a greedy repetition of one character class' % pat)
+            cls = list(g2[0][1][2])[0][1]
+            accepted = set()
+            neg = any(it[0] is _rc.NEGATE for it in cls)
+            if neg:
+                raise AnalysisError('C14.1: negated letter class in %r' % pat)
+            for it in cls:
+                if it[0] is _rc.LITERAL:
+                    accepted.add(it[1])
+                elif it[0] is _rc.RANGE:
+                    accepted.update(range(it[1][0], it[1][1] + 1))
+                else:
+                    raise AnalysisError('C14.1: letter class of %r uses %s' % (pat, it[0]))
+            # the id group must not be able to end in a letter of the class, and the pattern must cover the whole label
+            def chars_of(items):
+                out = set()
+                for it in items:
+                    if it[0] is _rc.LITERAL:
+                        out.add(it[1])
+                    elif it[0] is _rc.RANGE:
+                        out.update(range(it[1][0], it[1][1] + 1))
+                    elif it[0] is _rc.IN:
+                        out |= chars_of(it[1])
+                    elif it[0] is _rc.CATEGORY:
+                        out |= set(range(ord('0'), ord('9') + 1)) if it[1] is _rc.CATEGORY_DIGIT else set(range(0, 0x250))
+                    elif it[0] in (_rc.MAX_REPEAT, _rc.MIN_REPEAT):
+                        out |= chars_of(list(it[1][2]))
+                    elif it[0] is _rc.SUBPATTERN:
+                        out |= chars_of(list(it[1][3]))
+                    elif it[0] is _rc.BRANCH:
+                        for br in it[1][1]:
+                            out |= chars_of(list(br))
+                    elif it[0] is _rc.ANY:
+                        out |= set(range(0, 0x250))
+                return out
+            g1chars = chars_of(list(ops[0][1][3]))
+            whole = end_anchor or n.func.attr == 'fullmatch'
+            maximal = whole and not (g1chars & accepted)
+            why = 'the label pattern is %r applied with %s' % (pat, n.func.attr)
+            if not whole:
+                why += ': it need not cover the whole label, so characters after the letters it knows are silently ignored'
+            elif g1chars & accepted:
+                why += ': the id part can itself end in a letter'
+            return {'accepted': accepted, 'maximal': maximal, 'form': 'regex', 'site': g_.loc(n), 'why': why, 'match': norm(n)}
     # form A: a loop stepping back over the text while a letter test holds
     loops = [(g_, n) for g_, n in scope_nodes(repo, f_poi) if isinstance(n, ast.While)]
     if len(loops) != 1:
@@ -158,6 +234,18 @@ def run(ctx):
             a0, a2 = norm(rv.args[0]), norm(rv.args[2])
             m0 = re.match(r'^_parse_int_matcher\(text(\[:(.+)\])?\)$', a0)
             m2 = re.match(r'^_parse_generation_matcher\(text\[(.+):\]\)$', a2)
+            if cut['form'] == 'regex':
+                mt = re.escape(cut['match'])
+                grp = r'(?:%s\.group\((\d)\)|%s\.groups\(\)\[(\d)\])' % (mt, mt)
+                m0 = re.match(r'^_parse_int_matcher\(%s\)$' % grp, a0)
+                m2r = re.match(r'^_parse_generation_matcher\(%s\)$' % grp, a2)
+                if m2r:
+                    nsplit += 1
+                    i0 = m0 and (int(m0.group(1)) if m0.group(1) else int(m0.group(2)) + 1)
+                    i2 = int(m2r.group(1)) if m2r.group(1) else int(m2r.group(2)) + 1
+                    ctx.check(bool(m0) and i0 == 1 and i2 == 2, 'C14.1', 'split:same-cut', f_poi.loc(), 'the label is cut at one position into id digits and incarnation letters',
+                              'label is cut as %s / %s' % (a0, a2))
+                continue
             if cut['form'] == 'rstrip':
                 # id = text.rstrip(L), letters = text[len(text.rstrip(L)):]
                 rs = re.escape(cut['rstrip'])
